@@ -372,6 +372,37 @@ def transformOfMap (m : List (Str × Rat)) : Except Err (List (List Rat)) :=
 def loadTransformJson (s : Str) : Option (Except Err (List (List Rat))) :=
   (parseFlatJson s).map transformOfMap
 
+/-! ### printf formats of the writers -/
+
+/-- `%.Ne` ↦ `(scientific = true, N + 1 significant digits)`; `%.Nf`, `%.Ng` ↦ `(false, N)`;
+everything else (including the dynamic marker of the translator) `none` -/
+def fmtSpec (s : Str) : Option (Bool × Nat) :=
+  match s with
+  | '%' :: '.' :: r =>
+    let ds := r.takeWhile isDig
+    match r.dropWhile isDig with
+    | [c] =>
+      if ds.isEmpty then none
+      else if c = 'e' ∨ c = 'E' then some (true, digitsVal ds + 1)
+      else if c = 'f' ∨ c = 'g' ∨ c = 'F' ∨ c = 'G' then some (false, digitsVal ds)
+      else none
+    | _ => none
+  | _ => none
+
+/-- every token of a written text is a literal of the grammar and `close` to the double it stands
+for (`xs` in file order); `none` = all fine, `some i` = first offending token index
+(`xs.length` when the number of tokens differs) -/
+def checkTokens (t : Str) (xs : List Rat) : Option Nat :=
+  let toks := (csvRows ' ' t).flatten
+  if toks.length ≠ xs.length then some xs.length else
+  let rec go : List Str → List Rat → Nat → Option Nat
+    | tk :: ts, x :: xr, i =>
+      match (if inGrammar tk then parseDec tk else none) with
+      | some y => if close x y then go ts xr (i + 1) else some i
+      | none => some i
+    | _, _, _ => none
+  go toks xs 0
+
 /-! ### ROS bag stamps (`write_bag_trajectory` / `read_bag_trajectory`) -/
 
 /-- `sec = int(stamp // 1)`, `nanosec = int((stamp - sec) * 1e9)`: both float operations rounded -/
